@@ -178,6 +178,20 @@ func (b *Buffer) ReadStruct(r interface{}) {
 	b.pos += n
 }
 
+// readNested decodes a value with the given function
+// from the remaining bytes of the buffer.
+func (b *Buffer) readNested(decode func([]byte) (int, error)) {
+	if b.err != nil {
+		return
+	}
+	n, err := decode(b.buf[b.pos:])
+	if err != nil {
+		b.err = err
+		return
+	}
+	b.pos += n
+}
+
 func (b *Buffer) ReadTime() time.Time {
 	d := b.ReadN(8)
 	if b.err != nil {
